@@ -75,6 +75,45 @@ theorem blas_rowmajor_syrk (u : Uplo) (t : Trans) (al be : Rat) (A C : Mat) (i j
     simp only [fffSyrk, syrkF, Uplo.swap, Trans.swap, Mat.T, inTri, op, hsq, decide_eq_true_eq] <;>
     (split_ifs <;> first | rfl | (congr 2; apply sumTo_congr; intro l _; ring))
 
+/-! ## All-but-axis iteration (`PyArray_IterAllButAxis`, `fffpy_multi_iterator`) -/
+
+/-- `iterator_fibres` (1): the fibres the iterator hands out, concatenated, are a rearrangement of
+    all multi-indices of the array: every element is visited exactly once, for every shape and axis. -/
+theorem iterator_fibres (dims : List Nat) (axis : Nat) (h : axis < dims.length) :
+    (visited dims axis).Perm (allIdx dims) := visited_perm dims axis h
+
+/-- `iterator_fibres` (2): the pointer arithmetic of the C code (`ITER_DATA + k * stride[axis]`)
+    addresses exactly the element of multi-index `b[axis := k]`, for any (also negative) strides. -/
+theorem iterator_fibre_offsets (dims : List Nat) (strides : List Int) (axis : Nat)
+    (hs : strides.length = dims.length) (h : axis < dims.length) :
+    fibreOffsets dims strides axis =
+      (fibreBases dims axis).map (fun b => (fibre dims axis b).map (offsetOf strides)) := by
+  unfold fibreOffsets fibre
+  apply List.map_congr_left
+  intro b hb
+  rw [List.map_map]
+  apply List.map_congr_left
+  intro k _
+  have hl : b.length = dims.length := by
+    have := mem_allIdx_length _ b hb
+    simpa using this
+  simp only [Function.comp]
+  rw [offsetOf_set strides b axis k (by omega) (by omega) (mem_bases_zero dims axis b h hb)]
+
+/-- `iterator_fibres` (3): for a valid view (every element offset inside the buffer `[0, N)`), every
+    offset the fibre views read is inside the buffer. -/
+theorem iterator_offsets_in_buffer (dims : List Nat) (strides : List Int) (axis : Nat) (N : Int)
+    (hs : strides.length = dims.length) (h : axis < dims.length)
+    (hvalid : ∀ idx ∈ allIdx dims, 0 ≤ offsetOf strides idx ∧ offsetOf strides idx < N) :
+    ∀ f ∈ fibreOffsets dims strides axis, ∀ o ∈ f, 0 ≤ o ∧ o < N := by
+  rw [iterator_fibre_offsets dims strides axis hs h]
+  intro f hf o ho
+  obtain ⟨b, hb, rfl⟩ := List.mem_map.mp hf
+  obtain ⟨idx, hidx, rfl⟩ := List.mem_map.mp ho
+  apply hvalid
+  apply (iterator_fibres dims axis h).subset
+  exact List.mem_flatMap.mpr ⟨b, hb, hidx⟩
+
 /-! ## Cubic B-spline sampling -/
 
 /-- `mirror_index_in_range`: every grid coordinate is reflected into `[0, ddim]`. -/
@@ -185,6 +224,8 @@ theorem quantile_ratio_one_noninterp (x : List Rat) (hlen : 2 ≤ x.length) :
   simp [quantile, h1, h2, ceilNat, hf]
 
 /-! ## Non-vacuity -/
+
+example : fibreOffsets [2, 3] [3, -1] 1 = [[0, -1, -2], [3, 2, 1]] := by decide +kernel
 
 example : quantile [3, 1, 2, 5] (1 / 2) true = some (.val (5 / 2)) := by decide +kernel
 example : quantile [0, 1] (1 / 2) true = some (.val (1 / 2)) := by decide +kernel
